@@ -143,7 +143,7 @@ Proof.
     + intros HK; apply (acct_same_senders s _ A HK); try reflexivity; intros o' c' H;
         use_updop H.
   - (* StreamFinish *) revert HK. unfold step. destruct (getop s o) as [c|] eqn:Ec; [|intros; exact A].
-    destruct (o_status c); try (intros; exact A); destruct (is_running s); intros HK;
+    destruct (o_status c); try (intros; exact A); try destruct (fix20 (fx s)); destruct (is_running s); intros HK;
       apply (acct_same_senders s _ A HK); try reflexivity; intros o' c' H;
       use_updop H.
   - (* Advance *) apply (acct_same_senders s _ A HK); try reflexivity. intros o c' H. exists c'. now repeat split.
